@@ -34,7 +34,7 @@ VARIABLES status,     \* [inst -> "none" | "open" | "closed"]
 
 vars == <<status, href, cclosed, shared, priv, mapped, unsafe, hist, fin>>
 
-Insts == {"A", "B", "C", "D"}
+Insts == {"A", "B", "C", "D", "E"}    \* E imports nothing of A but its funcref GLOBAL (a reference to A's function)
 Slots == {0, 1}
 Importers == {"B", "C"}       \* C is a second importer of T (same module shape as B)
 InvolvesT(i) == i = "A" \/ (i \in Importers /\ status[i] # "none")
@@ -48,7 +48,8 @@ Reach(S) ==
       viaSlots == IF Demanded
                   THEN UNION {RefOwners(priv[i]) : i \in S \cap {"B", "D"}} \cup (IF \E i \in S : InvolvesT(i) THEN RefOwners(shared) ELSE {})
                   ELSE {}
-      N == S \cup viaT \cup viaSlots IN
+      viaG == IF "E" \in S /\ status["E"] # "none" THEN {"A"} ELSE {}      \* an imported global keeps its exporter alive
+      N == S \cup viaT \cup viaSlots \cup viaG IN
   IF N = S THEN S ELSE Reach(N)
 Reachable == Reach(Roots)
 
@@ -64,7 +65,7 @@ Init == /\ status = [i \in Insts |-> IF i = "A" THEN "open" ELSE "none"]
 Rec(a, r) == hist' = Append(hist, [a |-> a, res |-> r]) /\ unsafe' = (unsafe \/ r = "UNSAFE")
 
 Do(a) ==
-  CASE a.k = "inst"   -> /\ status[a.i] = "none" /\ a.i # "A" /\ (a.i \in Importers => status["A"] = "open")
+  CASE a.k = "inst"   -> /\ status[a.i] = "none" /\ a.i # "A" /\ (a.i \in Importers \cup {"E"} => status["A"] = "open")
                          /\ ~cclosed[a.i]             \* not after the compilation cache was closed (it may fail then; not modelled)
                          /\ status' = [status EXCEPT ![a.i] = "open"] /\ href' = [href EXCEPT ![a.i] = TRUE]
                          /\ Rec(a, "ok") /\ UNCHANGED <<cclosed, shared, priv, mapped>>
@@ -96,7 +97,8 @@ Do(a) ==
     [] a.k = "call"   -> \* open instance a.i calls through its view of the shared table / its private table; it also reads the
                          \* memory it sees - A's memory, which B and C import: closing an importer releases nothing of A's
                          /\ status[a.i] = "open" /\ (a.t = "shared" => InvolvesT(a.i)) /\ (a.t = "priv" => a.i \in {"B", "D"})
-                         /\ LET target == IF a.t = "shared" THEN shared[a.s] ELSE priv[a.i][a.s] IN
+                         /\ (a.t = "global" <=> a.i = "E")
+                         /\ LET target == IF a.t = "shared" THEN shared[a.s] ELSE IF a.t = "global" THEN "A" ELSE priv[a.i][a.s] IN
                             Rec(a, IF target = "-" THEN "trap" ELSE IF mapped[target] THEN target ELSE "UNSAFE")
                          /\ UNCHANGED <<status, href, cclosed, shared, priv, mapped>>
 
@@ -132,6 +134,11 @@ AllActs == {A("inst", i, "", 0, "") : i \in {"B", "D"}} \cup
    importer arrives, then collection, then a live instance calls through the slot *)
 FocusActs == {A("inst", "B", "", 0, ""), A("inst", "C", "", 0, ""), A("tset", "B", "", 0, ""), A("close", "B", "", 0, ""),
               A("closec", "B", "", 0, ""), A("drop", "B", "", 0, ""), A("gc", "", "", 0, ""), A("call", "A", "", 0, "shared"), A("call", "C", "", 0, "shared")}
+(* E holds a reference to A's function only through the funcref global it imports; A is closed, compile-closed, dropped
+   and collected; E keeps calling through the global *)
+GlobalActs == {A("inst", "E", "", 0, ""), A("close", "A", "", 0, ""), A("closec", "A", "", 0, ""), A("drop", "A", "", 0, ""),
+               A("gc", "", "", 0, ""), A("call", "E", "", 0, "global")}
+EmitGlobal == (fin /\ Len(hist) > 2 /\ hist[Len(hist)].a.k = "call" /\ status["A"] = "closed") => PrintT(<<"EMIT", ToJson([hist |-> hist])>>)
 (* the compilation cache is closed under live instances; then collection; then every live instance keeps calling *)
 CacheActs == {A("inst", "B", "", 0, ""), A("tset", "B", "", 0, ""), A("tset", "A", "", 1, ""), A("pset", "B", "A", 0, ""),
               A("cacheclose", "", "", 0, ""), A("gc", "", "", 0, ""), A("close", "B", "", 0, ""),
